@@ -2,8 +2,10 @@
 package c04
 
 import (
+	"bytes"
 	"fmt"
 	"os"
+	"os/exec"
 	"path/filepath"
 	"strings"
 	"testing"
@@ -149,44 +151,108 @@ func TestC04Crash(t *testing.T) {
 				t.Fatalf("INCONCLUSIVE[kill did not land at the requested position: killed=%v calls=%d want %d (%s)]", run.Killed, len(run.Calls), p.Index+1, p)
 			}
 			ctx := fmt.Sprintf("kill at %s (in-flight write-out #%d, metadata rename executed: %v)\nhistory:\n  %s", p, I, committed, strings.Join(h.Describe(), "\n  "))
-			want := h.DBOf(func(i int) bool { return i < I || (i == I && committed) })
-			if v := crashlab.Examine(child, h, db, want, crashlab.ExamOpts{Prefix: "C04", KnownStale: "C04-F4b", Inflight: I, Committed: committed, FirstOfDay: firstOfDay, Pos: p, DirRenamePending: dirRenamePending}); v != nil {
-				t.Fatalf("%s", evid.Sig(v.Sig, "%s\n%s", v.Msg, ctx))
-			}
-			// continued writer: the remaining write-outs must succeed and the final database must equal the history
-			from := I
-			if committed {
-				from = I + 1
-			}
-			sc.From = from
-			contPath := filepath.Join(root, "cont.json")
-			if err := sc.Save(contPath); err != nil {
-				t.Fatalf("harness: %v", err)
-			}
-			sc.From = 0
-			res, err := crashlab.RunPlain(writer, contPath)
-			if err != nil {
-				t.Fatalf("%s", evid.Sig("C04:continued-writer-died", "the writer continuing after the crash died: %v\n%s", err, ctx))
-			}
-			for i := from; i < len(res); i++ {
-				if res[i] != "ok" {
-					t.Fatalf("%s", evid.Sig("C04:continued-write-failed", "write-out #%d after the crash fails: %s\n%s", i, res[i], ctx))
+			// examineSurvivor checks the database as it is now, lets the writer continue and checks the final state
+			examineSurvivor := func(ctx string) {
+				want := h.DBOf(func(i int) bool { return i < I || (i == I && committed) })
+				if v := crashlab.Examine(child, h, db, want, crashlab.ExamOpts{Prefix: "C04", KnownStale: "C04-F4b", Inflight: I, Committed: committed, FirstOfDay: firstOfDay, Pos: p, DirRenamePending: dirRenamePending}); v != nil {
+					t.Fatalf("%s", evid.Sig(v.Sig, "%s\n%s", v.Msg, ctx))
+				}
+				// continued writer: the remaining write-outs must succeed and the final database must equal the history
+				from := I
+				if committed {
+					from = I + 1
+				}
+				sc.From = from
+				contPath := filepath.Join(root, "cont.json")
+				if err := sc.Save(contPath); err != nil {
+					t.Fatalf("harness: %v", err)
+				}
+				sc.From = 0
+				res, err := crashlab.RunPlain(writer, contPath)
+				if err != nil {
+					t.Fatalf("%s", evid.Sig("C04:continued-writer-died", "the writer continuing after the crash died: %v\n%s", err, ctx))
+				}
+				for i := from; i < len(res); i++ {
+					if res[i] != "ok" {
+						t.Fatalf("%s", evid.Sig("C04:continued-write-failed", "write-out #%d after the crash fails: %s\n%s", i, res[i], ctx))
+					}
+				}
+				// (the stale directory-name summary of C04-F4b persists until another write-out goes to that day)
+				healed := false
+				for i := I + 1; i < len(h.Outs); i++ {
+					if h.Outs[i].Iface == h.Outs[I].Iface && crashlab.DayOf(h.Outs[i].Block.Ts) == crashlab.DayOf(h.Outs[I].Block.Ts) {
+						healed = true
+					}
+				}
+				stale := -1
+				if dirRenamePending && !healed {
+					stale = I
+				}
+				if v := crashlab.Examine(child, h, db, h.DBOf(func(int) bool { return true }), crashlab.ExamOpts{Prefix: "C04", KnownStale: "C04-F4b", Inflight: stale, Committed: stale >= 0, Pos: p, DirRenamePending: stale >= 0}); v != nil {
+					t.Fatalf("%s", evid.Sig(v.Sig+":after-continuing", "after replaying the remaining write-outs: %s\n%s", v.Msg, ctx))
 				}
 			}
-			// (the stale directory-name summary of C04-F4b persists until another write-out goes to that day)
-			healed := false
-			for i := I + 1; i < len(h.Outs); i++ {
-				if h.Outs[i].Iface == h.Outs[I].Iface && crashlab.DayOf(h.Outs[i].Block.Ts) == crashlab.DayOf(h.Outs[I].Block.Ts) {
-					healed = true
+			partial := full && p.Name == "write" && p.Index+1 < len(dry.Calls)
+			dbA := filepath.Join(root, "dbA")
+			if partial {
+				os.RemoveAll(dbA)
+				if err := exec.Command("cp", "-a", db, dbA).Run(); err != nil {
+					t.Fatalf("harness: %v", err)
 				}
 			}
-			stale := -1
-			if dirRenamePending && !healed {
-				stale = I
-			}
-			if v := crashlab.Examine(child, h, db, h.DBOf(func(int) bool { return true }), crashlab.ExamOpts{Prefix: "C04", KnownStale: "C04-F4b", Inflight: stale, Committed: stale >= 0, Pos: p, DirRenamePending: stale >= 0}); v != nil {
-				t.Fatalf("%s", evid.Sig(v.Sig+":after-continuing", "after replaying the remaining write-outs: %s\n%s", v.Msg, ctx))
+			examineSurvivor(ctx)
+			if partial {
+				// a kill in the middle of the write: the state before the call with a proper prefix of its data applied
+				os.RemoveAll(db)
+				next := dry.Calls[p.Index+1]
+				if _, err := strace.Exec(writer, scriptPath, root, strace.KillAt(next)); err != nil {
+					t.Fatalf("INCONCLUSIVE[strace run failed: %v]", err)
+				}
+				rel, f0, f1 := changedFile(dbA, db)
+				if rel != "" && len(f1) > 0 {
+					d0 := 0
+					for d0 < len(f0) && d0 < len(f1) && f0[d0] == f1[d0] {
+						d0++
+					}
+					n := len(f1) - d0
+					for _, j := range []int{1, n / 2, n - 1} {
+						if j <= 0 || j >= n {
+							continue
+						}
+						hybrid := append([]byte(nil), f1[:d0+j]...)
+						if len(f0) > d0+j {
+							hybrid = append(hybrid, f0[d0+j:]...)
+						}
+						os.RemoveAll(db)
+						if err := exec.Command("cp", "-a", dbA, db).Run(); err != nil {
+							t.Fatalf("harness: %v", err)
+						}
+						if err := os.WriteFile(filepath.Join(db, rel), hybrid, 0o644); err != nil {
+							t.Fatalf("harness: %v", err)
+						}
+						evid.Case(fmt.Sprintf("%v|%d|partial%d", h.Describe(), p.Index, j), nt, "partial-write")
+						examineSurvivor(fmt.Sprintf("kill after %d of %d bytes of the write to %s\n%s", j, n, rel, ctx))
+					}
+				}
 			}
 		}
 	})
+}
+
+// changedFile finds the one regular file that differs between two database trees (b is a's successor by
+// one write call) and returns its path relative to the roots and both contents.
+func changedFile(a, b string) (rel string, f0, f1 []byte) {
+	_ = filepath.WalkDir(b, func(p string, d os.DirEntry, err error) error {
+		if err != nil || d.IsDir() || rel != "" {
+			return nil
+		}
+		r, _ := filepath.Rel(b, p)
+		nb, _ := os.ReadFile(p)
+		na, _ := os.ReadFile(filepath.Join(a, r))
+		if !bytes.Equal(na, nb) {
+			rel, f0, f1 = r, na, nb
+		}
+		return nil
+	})
+	return
 }
